@@ -38,7 +38,7 @@ ARGS = ["0", "1", "2", "-1", "-2", "3", "10", "100", "1/2", "-1/2", "7/2", "-7/2
 QARGS = ["90 deg", "180 deg", "45 deg", "2 rad", "-1 rad", "4 m", "-4 m", "(7/2) m", "-7/2 s", "2.5 kg", "0 m", "9 m^2", "1e3 m", "30 deg", "1 dozen"]
 BASES = ["-2", "0", "1/2", "1", "2", "e", "10", "0.9", "3", "1.0", "1/10",
          # next to the excluded base 1 and next to 0: in the domain, whatever tolerance an equality test might use
-         "1.0000000001", "0.9999999999", "1.000000000000001", "1 + 1/10^12", "0.0000000001", "-0.0000000001"]
+         "1.0000000001", "0.9999999999", "1.000000000000001", "1 + 1/10^12", "1 + 1/10^20", "1 - 1/10^20", "0.0000000001", "-0.0000000001"]
 EXPS = ["0", "1", "2", "3", "-1", "-2", "1/2", "-1/2", "1/3", "2.5", "-0.5", "0.5", "10", "100", "1000", "2/3",
         # fractional exponents next to an integer (a negative base must still be rejected)
         "2.0000000001", "1.0000000001", "-3.0000000001", "2.000000000000001", "1.9999999999", "3 + 1/10^12", "-1.0000000001", "0.0000000001"]
